@@ -1,95 +1,6 @@
-(* Runs the extracted Core model on a case file; prints the same observation lines as the
-   Rust harness (harness/src/core_engine.rs). *)
 open Model
 open Conv
-
-let nn s = n_of_dec s
-let bb s = (s = "1")
-
-let parse_op (line : string) : op =
-  let t = Array.of_list (String.split_on_char ' ' line) in
-  match t.(0) with
-  | "get" -> OGet (str_of_tok t.(1))
-  | "cget" -> OCGet (str_of_tok t.(1))
-  | "pget" -> OPGet (str_of_tok t.(1))
-  | "ls" -> OLs (opt_of_tok t.(1))
-  | "pls" -> OPLs (opt_of_tok t.(1))
-  | "len" -> OLen
-  | "set" -> OSet (nn t.(1), str_of_tok t.(2), json_of_tok t.(3), bb t.(4))
-  | "cset" -> OCSet (nn t.(1), str_of_tok t.(2), json_of_tok t.(3), nn t.(4), bb t.(5))
-  | "del" -> ODelete (nn t.(1), str_of_tok t.(2))
-  | "pdel" -> OPDelete (nn t.(1), str_of_tok t.(2))
-  | "pub" -> OPublish (str_of_tok t.(1), json_of_tok t.(2))
-  | "spubinit" -> OSPubInit (nn t.(1), nn t.(2), str_of_tok t.(3))
-  | "spub" -> OSPub (nn t.(1), nn t.(2), json_of_tok t.(3))
-  | "import" -> OImport (json_of_tok t.(1))
-  | "sub" -> OSubscribe (nn t.(1), nn t.(2), str_of_tok t.(3), bb t.(4), bb t.(5))
-  | "psub" -> OPSubscribe (nn t.(1), nn t.(2), str_of_tok t.(3), bb t.(4), bb t.(5))
-  | "unsub" -> OUnsubscribe (nn t.(1), nn t.(2))
-  | "subls" -> OSubscribeLs (nn t.(1), nn t.(2), opt_of_tok t.(3))
-  | "unsubls" -> OUnsubscribeLs (nn t.(1), nn t.(2))
-  | "lock" -> OLock (nn t.(1), str_of_tok t.(2))
-  | "acq" -> OAcquire (nn t.(1), str_of_tok t.(2))
-  | "rel" -> ORelease (nn t.(1), str_of_tok t.(2))
-  | "conn" -> OConnected (nn t.(1))
-  | "disc" -> ODisconnected (nn t.(1))
-  | "dump" -> ODump
-  | other -> failwith ("unknown op " ^ other)
-
-let sorted l = List.sort compare l
-let kvs_tok (kvs : (str * json) list) : string =
-  "[" ^ String.concat ";" (sorted (List.map (fun (k, v) -> xs k ^ "=" ^ js v) kvs)) ^ "]"
-let names_tok (l : str list) : string = "[" ^ String.concat ";" (sorted (List.map xs l)) ^ "]"
-
-let result_tok (r : result) : string =
-  match r with
-  | RUnit -> "ok"
-  | RValue v -> "val " ^ js v
-  | RCValue (v, ver) -> "cval " ^ dec_of_n ver ^ " " ^ js v
-  | RKvs l -> "kvs " ^ kvs_tok l
-  | RNames l -> "names " ^ names_tok l
-  | RLen x -> "len " ^ dec_of_n x
-  | RSub i -> "sub " ^ dec_of_n i
-  | RReq i -> "req " ^ dec_of_n i
-  | RImported l ->
-      "imp [" ^ String.concat ";" (sorted (List.map (fun ((k, e), ch) ->
-        xs k ^ "=" ^ (match e with Plain v -> "P:" ^ js v | Cas (v, ver) -> "C" ^ dec_of_n ver ^ ":" ^ js v)
-        ^ ":" ^ (if ch then "1" else "0")) l)) ^ "]"
-  | RDump (d, len) ->
-      let items = ref [] in
-      let rec walk (Node (v, cs)) (path : str list) =
-        let ptok = if path = [] then "-" else xs (join slash (List.rev path)) in
-        items := (ptok ^ (match (if path = [] then None else v) with None -> "" | Some (Plain j) -> "|P:" ^ js j | Some (Cas (j, ver)) -> "|C" ^ dec_of_n ver ^ ":" ^ js j)) :: !items;
-        List.iter (fun (k, c) -> walk c (k :: path)) cs in
-      walk d [];
-      "dump len=" ^ dec_of_n len ^ " nodes=[" ^ String.concat ";" (sorted !items) ^ "]"
-  | RErr c -> "err " ^ dec_of_n c
-  | RCrash -> "crash"
-
-let event_tok ((i, e) : n * event) : string =
-  dec_of_n i ^ ":" ^
-  (match e with
-   | EValue v -> "V:" ^ js v
-   | EDeleted v -> "D:" ^ js v
-   | EPValue kvs -> "PV:" ^ kvs_tok kvs
-   | EPDeleted kvs -> "PD:" ^ kvs_tok kvs)
-
-let output_line (o : output) : string =
-  match o.o_res with
-  | RCrash -> "crash"
-  | r ->
-      let evs = List.map event_tok (List.stable_sort (fun (i, _) (j, _) -> compare (int_of_n i) (int_of_n j)) o.o_events) in
-      (* per ls instance: count and last list *)
-      let tbl = Hashtbl.create 8 in
-      List.iter (fun (i, l) ->
-          let i = int_of_n i in
-          let (c, _) = try Hashtbl.find tbl i with Not_found -> (0, []) in
-          Hashtbl.replace tbl i (c + 1, l)) o.o_ls;
-      let lss = List.sort compare (Hashtbl.fold (fun i (c, l) acc -> (i, c, l) :: acc) tbl []) in
-      let lss = List.map (fun (i, c, l) -> Printf.sprintf "%d:%d:%s" i c (names_tok l)) lss in
-      let nums l = String.concat " " (List.map string_of_int (List.sort compare (List.map int_of_n l))) in
-      Printf.sprintf "%s | ev %s | ls %s | g %s | c %s" (result_tok r)
-        (String.concat " " evs) (String.concat " " lss) (nums o.o_granted) (nums o.o_cancelled)
+open Core_driver_lib
 
 (* client-side memory for the cget -> cset cycle (`cgetr` remembers the version a client
    read, `csetr` sends it back): driver glue, not part of the model *)
